@@ -121,7 +121,7 @@ def make_collators(kind):
 
 
 STACKS = ("xtransform", "multiview", "subset>xtransform", "idw>concat", "xtransform>xtransform", "interleaved",
-          "ytransform", "concat_shared_root")
+          "ytransform", "concat_shared_root", "multiview_plain_first", "multiview_plain_middle")
 
 
 def make_stack(stack, spec, collators):
@@ -146,6 +146,11 @@ def make_stack(stack, spec, collators):
         return ModeWrapper(XTransformWrapper(root(), t()), mode="x class")
     if stack == "multiview":
         return ModeWrapper(KDMultiViewWrapper(root(), [(2, t()), other()]), mode="x")
+    if stack == "multiview_plain_first":
+        # a plain callable (torchvision transform / lambda) as a view config before the stochastic ones
+        return ModeWrapper(KDMultiViewWrapper(root(), [cat.Plain(), (2, t()), other()]), mode="x")
+    if stack == "multiview_plain_middle":
+        return ModeWrapper(KDMultiViewWrapper(root(), [other(), (2, cat.Plain()), t()]), mode="x")
     if stack == "subset>xtransform":
         return ModeWrapper(KDSubset(XTransformWrapper(root(), t()), [0, 2]), mode="x")
     if stack == "idw>concat":
